@@ -289,6 +289,16 @@ func (ctx *RenderContext) GetVariableOrNil(name string) interface{} {
 	return value
 }
 
+// definesVariable reports whether the name is bound in this context or one it can see
+func (ctx *RenderContext) definesVariable(name string) bool {
+	for c := ctx; c != nil; c = c.parent {
+		if _, ok := c.context[name]; ok {
+			return true
+		}
+	}
+	return false
+}
+
 // SetVariable sets a variable in the context
 func (ctx *RenderContext) SetVariable(name string, value interface{}) {
 	ctx.context[name] = value
@@ -704,9 +714,13 @@ func (ctx *RenderContext) EvaluateExpression(node Node) (interface{}, error) {
 		return n.value, nil
 
 	case *VariableNode:
-		// Check if it's a macro first
-		if macro, ok := ctx.GetMacro(n.name); ok {
-			return macro, nil
+		// A variable the template can see (a set, a loop variable, a macro parameter, a
+		// context value) hides a macro of the same name; a name that is no variable may
+		// be a macro
+		if !ctx.definesVariable(n.name) {
+			if macro, ok := ctx.GetMacro(n.name); ok {
+				return macro, nil
+			}
 		}
 
 		// Otherwise, look up variable
